@@ -287,6 +287,24 @@ def apalache_inductive(ctx, module, *, cinit, init, ind_init, ind_inv, goal, tim
     return True
 
 
+def tlaps_prove(ctx, module, deps=(), timeout=600):
+    """Check a TLAPS proof module (all obligations must be proved).  Skipped with a note when tlapm is not installed."""
+    exe = shutil.which("tlapm")
+    if not exe:
+        ctx.notes.append("tlapm not found: the proof %s was not re-checked" % module)
+        return False
+    d = ctx.sub("tlaps." + module)
+    for m in (module,) + tuple(deps):
+        shutil.copy(os.path.join(SPECS, m + ".tla"), d)
+    rc, out = run(ctx, [exe, "--threads", "16", module + ".tla"], timeout, cwd=d, outfile=os.path.join(d, "tlapm.out"))
+    m = re.search(r"All (\d+) obligations proved", out)
+    if rc != 0 or not m:
+        raise MachineryError("tlapm did not prove %s:\n%s" % (module, "\n".join(out.splitlines()[-25:])))
+    ctx.log("TLAPS %s: all %s obligations proved" % (module, m.group(1)))
+    ctx.notes.append("TLAPS: %s, all %s proof obligations proved (arbitrary set of producers, unbounded queue)" % (module, m.group(1)))
+    return True
+
+
 def have_strace():
     """strace present and allowed to attach (ptrace) to a child of ours?"""
     global _STRACE
